@@ -179,8 +179,11 @@ class World(C02_bounded.World):
         await self.op("edit")  # plan.py changes: the plan step runs again with the phase-2 script
 
 
-async def _explore(m, world, njobs, variant, limit=3000):
-    """Every schedule of the world's phases; returns the first failure or the number of schedules and decisions."""
+async def _explore(m, world, njobs, variant, limit=3000, outcomes=None):
+    """Every schedule of the world's phases; returns the first failure or the number of schedules and decisions.
+    `outcomes` (a dict) collects the final graph of every schedule (C02: it must be the same for all of them)."""
+    from contracts import C05_bounded
+
     stack = [()]
     explored = decisions = 0
     two = "steps2" in WORLDS2[world]
@@ -239,6 +242,13 @@ async def _explore(m, world, njobs, variant, limit=3000):
                 return dict(world=world, njobs=njobs, variant=variant, error=f"{type(e).__name__}: {str(e)[:200]}",
                             schedule=list(map(str, choices or ())))
             decisions += w.decisions
+            if outcomes is not None and choices is not None:
+                async with db:
+                    g = C05_bounded.graph(db, m)
+                    needs = sorted(db.execute("SELECT node.label, step.need, step._implied_need FROM step JOIN node ON node.i = step.node "
+                                              "WHERE NOT node.detached").fetchall())
+                key = repr((sorted(g["nodes"].items()), sorted(g["edges"]), sorted(g["hashes"]), needs))
+                outcomes.setdefault(key, list(map(str, choices)))
     return dict(schedules=min(explored, limit), decisions=decisions, truncated=explored > limit)
 
 
